@@ -20,7 +20,7 @@ def run(ctx):
     quick = ctx.tier == "quick"
     run_structure(ctx, "C06", PROP_FILES, FLAVOURS, 2000 if quick else 12000, 5 if quick else 6, 3000 if quick else 20000, nontrivial)
     ctx.cov["rule"] = ("seeded generator: real directory trees under a sandbox (scan root spelled `t` or `./t`; scopes, excludes and DirStats keys also written with a leading `./`; width<=12, depth<=7; hidden names, empty dirs, symlinks to file/dir/nothing, FIFOs; "
-                       ".gitignore files with name/extension/anchored/dir-only forms; scanner.exclude and count_exclude patterns of six forms) x [structure] configurations "
+                       ".gitignore files with name/extension/anchored/dir-only forms; scanner.exclude and count_exclude patterns of nine forms, among them separator-free patterns that match an entry by its path and not by its name: *gen*, t?gen*, t*.rs) x [structure] configurations "
                        "(global and per-rule limits placed within +-2 of real figures, -1/0, warn_*_at, percentage thresholds, overlapping scopes, relative_depth, 6% rejected configurations), command-line -x/--exclude patterns (35%), requests of several scan roots (22%), "
                        "run through the library pipeline with both back-ends, every 5th also through `sgcli check` + `explain`; plus StructureChecker::check on arbitrary DirStats maps with "
                        "figures at limit-1/limit/limit+1 and around every warn point. non-trivial = distinct case in which a directory lies within +-1 of an applicable limit, is matched by a rule, "
